@@ -83,11 +83,12 @@ func kernelConfigs(prop, tier string) []kernelCfg {
 			{prop, "race-cli-icmp", []string{"-P", "icmp", "-q", "4", "-Q", "3"}, false, nil, false, "", ""},
 			{prop, "race-cli-udp", []string{"-P", "udp", "-q", "3", "-Q", "3"}, false, nil, false, "", ""},
 			{prop, "race-cli-tcp-sack", []string{"-P", "tcp", "-p", "8080", "--tcp-method", "sack", "-q", "3", "-Q", "2"}, false, nil, false, "", ""},
+			// every process start is a "first use": what is initialised lazily by the first run is initialised by three at once
+			{prop, "race-cli-tcp-syn", []string{"-P", "tcp", "-p", "8080", "--tcp-method", "syn", "-q", "3", "-Q", "3"}, false, nil, false, "", ""},
+			{prop, "race-cli-tcp-prefer-sack-closed", []string{"-P", "tcp", "-p", "8099", "--tcp-method", "prefer_sack", "-q", "3", "-Q", "2"}, false, nil, false, "", ""},
 		}
 		if tier == "thorough" {
 			cfgs = append(cfgs,
-				kernelCfg{prop, "race-cli-tcp-syn", []string{"-P", "tcp", "-p", "8080", "--tcp-method", "syn", "-q", "3", "-Q", "3"}, false, nil, false, "", ""},
-				kernelCfg{prop, "race-cli-tcp-prefer-sack-closed", []string{"-P", "tcp", "-p", "8099", "--tcp-method", "prefer_sack", "-q", "3", "-Q", "2"}, false, nil, false, "", ""},
 				kernelCfg{prop, "race-cli-icmp6", []string{"-P", "icmp", "-q", "4", "-Q", "3"}, true, nil, false, "", ""},
 				kernelCfg{prop, "race-cli-udp6", []string{"-P", "udp", "-q", "3", "-Q", "3"}, true, nil, false, "", ""},
 			)
